@@ -237,3 +237,167 @@ Proof.
          (T None s_r [] [leaf (s_b ++ mark_suffix MRem) []]).
   eexists. vm_compute. repeat split.
 Qed.
+
+(* ================================================================================================ *)
+(* The predicate the check evaluates on the implementation's output holds of the model, for ALL inputs of
+   the modelled domain: both trees, attr_list with any number of attributes in any order, only_diff on/off.
+   Guards (hence _partial): sep = "/" (K4-C15, boundary: C15_sep_refused_iff below) and lookalike_free
+   (C15_lookalike_guard_needed).  obs_of_res turns the model's answer into the observation format. *)
+Theorem C15_model_satisfies_prop_partial : forall t1 t2 al od,
+  domain_C15 slash t1 t2 al = true -> lookalike_free t1 t2 = true ->
+  prop_C15 slash t1 t2 od al (obs_of_res (get_tree_diff slash t1 t2 od al)) = true.
+Proof. exact model_satisfies_prop. Qed.
+Print Assumptions C15_model_satisfies_prop_partial.
+
+(* ... for the entry point the check calls (Node and subclasses; any separator of the second tree) *)
+Theorem C15_model_satisfies_prop_node_partial : forall t1 t2 al od sep2,
+  domain_C15 slash t1 t2 al = true -> lookalike_free t1 t2 = true ->
+  prop_C15 slash t1 t2 od al (obs_of_res (get_tree_diff_cls false slash sep2 t1 t2 od al)) = true.
+Proof. exact model_satisfies_prop_cls. Qed.
+Print Assumptions C15_model_satisfies_prop_node_partial.
+
+(* ... and for BinaryNode trees unless a parent of the result would get a third child (K5-C15) *)
+Theorem C15_model_satisfies_prop_binary_partial : forall t1 t2 al od sep2,
+  domain_C15 slash t1 t2 al = true -> lookalike_free t1 t2 = true ->
+  (forall l, get_tree_diff slash t1 t2 od al = Ret (Some l) -> binary_overflow l = false) ->
+  prop_C15 slash t1 t2 od al (obs_of_res (get_tree_diff_cls true slash sep2 t1 t2 od al)) = true.
+Proof. exact model_satisfies_prop_binary. Qed.
+Print Assumptions C15_model_satisfies_prop_binary_partial.
+
+Definition s_y : str := [121%N].
+Definition s_z : str := [122%N].
+
+(* two trees, three listed attributes in the order z, x, y: x differs, y is absent on one side, z is equal *)
+Definition ex_t1 : tree :=
+  T None s_r [(s_x, VInt 0)] [T None s_b [(s_x, VInt 1); (s_z, VStr s_b)] [leaf s_bc []]; leaf s_bc [(s_y, VInt 0)]].
+Definition ex_t2 : tree :=
+  T None s_r [(s_x, VNone)] [T None s_b [(s_x, VInt 2); (s_y, VStr []); (s_z, VStr s_b)] []; leaf s_bc [(s_y, VInt 0)]; leaf s_x []].
+
+Example C15_model_satisfies_prop_instance :
+  domain_C15 slash ex_t1 ex_t2 [s_z; s_x; s_y] = true /\ lookalike_free ex_t1 ex_t2 = true /\
+  get_tree_diff slash ex_t1 ex_t2 true [s_z; s_x; s_y]
+  = Ret (Some [ ([47; 114; 32; 40; 126; 41]%N, [(s_x, (VInt 0, VNone))]);                       (* /r (~)            *)
+                ([47; 114; 32; 40; 126; 41; 47; 98; 32; 40; 126; 41]%N,
+                 [(s_x, (VInt 1, VInt 2)); (s_y, (VNone, VStr []))]);                           (* /r (~)/b (~)      *)
+                ([47; 114; 32; 40; 126; 41; 47; 98; 32; 40; 126; 41; 47; 98; 99; 32; 40; 45; 41]%N, []);  (* .../bc (-) *)
+                ([47; 114; 32; 40; 126; 41; 47; 120; 32; 40; 43; 41]%N, []) ]) /\             (* /r (~)/x (+)      *)
+  prop_C15 slash ex_t1 ex_t2 true [s_z; s_x; s_y]
+    (obs_of_res (get_tree_diff_cls true slash [45%N] ex_t1 ex_t2 true [s_z; s_x; s_y])) = true /\
+  prop_C15 slash ex_t1 ex_t2 false [s_y; s_x] (obs_of_res (get_tree_diff slash ex_t1 ex_t2 false [s_y; s_x])) = true.
+Proof. vm_compute. repeat split. Qed.
+
+(* attribute entries: a returned node that exists in both trees (attributes a1 / a2) carries exactly the
+   listed attributes with different values, each with (value in tree, value in other_tree), in attr_list
+   order, all on that one node; equal values give no entry; the node is (~) iff there is an entry *)
+Theorem C15_changed_entries : forall t1 t2 al,
+  domain_C15 slash t1 t2 al = true -> lookalike_free t1 t2 = true ->
+  forall od L, get_tree_diff slash t1 t2 od al = Ret (Some L) ->
+  forall s at_ a1 a2,
+    In (s, at_) L -> In (read_names slash s, a1) (nodes_of t1) -> In (read_names slash s, a2) (nodes_of t2) ->
+    (forall a x y, In (a, (x, y)) at_ <->
+                   In a al /\ x = attr_val a a1 /\ y = attr_val a a2 /\ val_eqb x y = false) /\
+    map fst at_ = filter (fun a => negb (val_eqb (attr_val a a1) (attr_val a a2))) al /\
+    (at_ <> [] <-> read_mark slash s = MChg).
+Proof. exact changed_entries. Qed.
+Print Assumptions C15_changed_entries.
+
+(* an attribute a node does not have reads as None (the NaN of the table); one it has reads as its value *)
+Theorem C15_attr_absent_none : forall a at_, (forall v, ~ In (a, v) at_) -> attr_val a at_ = VNone.
+Proof. exact attr_val_absent. Qed.
+Print Assumptions C15_attr_absent_none.
+
+Theorem C15_attr_present_value : forall a v at_, NoDup (map fst at_) -> In (a, v) at_ -> attr_val a at_ = v.
+Proof. exact attr_val_present. Qed.
+Print Assumptions C15_attr_present_value.
+
+(* structure and attribute marks do not mix: a (-)/(+) node exists in one tree only, carries that single
+   marker per component of its displayed path and no attribute entry *)
+Theorem C15_structure_marks_plain : forall t1 t2 al,
+  domain_C15 slash t1 t2 al = true -> lookalike_free t1 t2 = true ->
+  forall od L, get_tree_diff slash t1 t2 od al = Ret (Some L) ->
+  forall s at_, In (s, at_) L -> read_mark slash s = MRem \/ read_mark slash s = MAdd ->
+    at_ = [] /\
+    ~ (In (read_names slash s) (map fst (nodes_of t1)) /\ In (read_names slash s) (map fst (nodes_of t2))) /\
+    s = path_name slash (map (fun q => last q [] ++ mark_suffix (status al (nodes_of t1) (nodes_of t2) q))
+                             (inits (read_names slash s))).
+Proof. exact structure_marks_plain. Qed.
+Print Assumptions C15_structure_marks_plain.
+
+(* with only_diff an unmarked returned node is a proper ancestor of a marked node, keeps its plain name
+   and has no attribute entry *)
+Theorem C15_only_diff_unmarked_ancestor : forall t1 t2 al,
+  domain_C15 slash t1 t2 al = true -> lookalike_free t1 t2 = true ->
+  forall od L, get_tree_diff slash t1 t2 od al = Ret (Some L) ->
+  forall s at_, od = true -> In (s, at_) L ->
+    status al (nodes_of t1) (nodes_of t2) (read_names slash s) = MSame ->
+    read_mark slash s = MSame /\ at_ = [] /\
+    exists q r, r <> [] /\ (In q (map fst (nodes_of t1)) \/ In q (map fst (nodes_of t2))) /\
+                status al (nodes_of t1) (nodes_of t2) q <> MSame /\ q = read_names slash s ++ r.
+Proof. exact only_diff_unmarked_ancestor. Qed.
+Print Assumptions C15_only_diff_unmarked_ancestor.
+
+(* hypotheses of the three theorems above are satisfiable: /r is an unmarked ancestor, /r/b (~) carries x
+   only (z equal, y not listed), /r/b (~)/bc (-) is a plain structural mark *)
+Example C15_marks_instance :
+  domain_C15 slash ex_t1 ex_t2 [s_z; s_x] = true /\ lookalike_free ex_t1 ex_t2 = true /\
+  exists L, get_tree_diff slash ex_t1 ex_t2 true [s_z] = Ret (Some L) /\
+            In ([47; 114]%N, []) L /\ read_mark slash [47; 114]%N = MSame /\
+            In ([47; 114; 47; 98; 47; 98; 99; 32; 40; 45; 41]%N, []) L /\
+            read_mark slash [47; 114; 47; 98; 47; 98; 99; 32; 40; 45; 41]%N = MRem /\
+            read_names slash [47; 114; 47; 98; 47; 98; 99; 32; 40; 45; 41]%N = [s_r; s_b; s_bc].
+Proof. vm_compute. repeat split. eexists. repeat split; cbn; auto. Qed.
+
+(* class-resolved attributes (a @property, a class-level default, is_leaf, depth) are values like any other:
+   the answer depends on a node's attributes only through a |-> get_attr a node on the listed names - the
+   effective attribute function the harness feeds the model.  Replacing every node's attributes by the graph
+   of that function, or any two tree pairs with the same tables, give the same answer. *)
+Theorem C15_effective_attrs_only : forall sep t1 t2 od al,
+  get_tree_diff sep (restrict_attrs al t1) (restrict_attrs al t2) od al = get_tree_diff sep t1 t2 od al.
+Proof. exact effective_attrs_only. Qed.
+Print Assumptions C15_effective_attrs_only.
+
+Theorem C15_tables_determine_result : forall sep t1 t2 t1' t2' od al,
+  table sep al t1 = table sep al t1' -> table sep al t2 = table sep al t2' ->
+  get_tree_diff sep t1 t2 od al = get_tree_diff sep t1' t2' od al.
+Proof. exact tables_determine_result. Qed.
+Print Assumptions C15_tables_determine_result.
+
+(* is_leaf as an effective attribute: b has a child in the first tree only *)
+Example C15_effective_attrs_instance :
+  let il : str := [105; 115; 95; 108; 101; 97; 102]%N in
+  let t1 := T None s_r [(il, VBool false)] [T None s_b [(il, VBool false); (s_x, VInt 7)] [leaf s_bc [(il, VBool true)]]] in
+  let t2 := T None s_r [(il, VBool false)] [leaf s_b [(il, VBool true)]] in
+  domain_C15 slash t1 t2 [il] = true /\
+  get_tree_diff slash t1 t2 true [il]
+  = Ret (Some [ ([47; 114]%N, []);
+                ([47; 114; 47; 98; 32; 40; 126; 41]%N, [(il, (VBool false, VBool true))]);
+                ([47; 114; 47; 98; 32; 40; 126; 41; 47; 98; 99; 32; 40; 45; 41]%N, []) ]) /\
+  restrict_attrs [il] t1 <> t1.
+Proof. vm_compute. repeat split. discriminate. Qed.
+
+(* K4-C15 as a theorem.  kept_paths = the marked path strings get_tree_diff hands to dataframe_to_tree.
+   For a one-character separator other than "/" (names free of it and of "/"): None iff no row is kept,
+   TreeError iff two kept rows differ, otherwise a tree (a single node named by the whole marked path);
+   no other exception. *)
+Theorem C15_sep_refused_iff : forall c t1 t2 od al,
+  c <> 47%N -> domain_C15 [c] t1 t2 al = true ->
+  (get_tree_diff [c] t1 t2 od al = Raise TreeError <->
+   exists p q, In p (kept_paths [c] t1 t2 od al) /\ In q (kept_paths [c] t1 t2 od al) /\ p <> q) /\
+  (kept_paths [c] t1 t2 od al = [] <-> get_tree_diff [c] t1 t2 od al = Ret None) /\
+  (forall e, get_tree_diff [c] t1 t2 od al = Raise e -> e = TreeError).
+Proof. exact sep_refused_iff. Qed.
+Print Assumptions C15_sep_refused_iff.
+
+(* sep ".": two kept rows raise; one kept row gives the single node "/.r.b (-)"; no row gives None *)
+Example C15_sep_refused_instance :
+  let dot : str := [46%N] in
+  let t0 := T None s_r [] [] in
+  let tb := T None s_r [] [leaf s_b []] in
+  let tc := T None s_r [] [leaf s_bc []] in
+  domain_C15 dot tb tc [] = true /\
+  kept_paths dot tb tc true [] = [[46; 114; 46; 98; 32; 40; 45; 41]%N; [46; 114; 46; 98; 99; 32; 40; 43; 41]%N] /\
+  get_tree_diff dot tb tc true [] = Raise TreeError /\
+  get_tree_diff dot tb t0 true [] = Ret (Some [([47; 46; 114; 46; 98; 32; 40; 45; 41]%N, [])]) /\
+  get_tree_diff dot tb tb true [] = Ret None /\
+  get_tree_diff dot tb tb false [] = Raise TreeError.
+Proof. vm_compute. repeat split. Qed.
